@@ -4,6 +4,7 @@ import (
 	"encoding/json"
 	"fmt"
 	"math/big"
+	"strings"
 
 	sdk "github.com/cosmos/cosmos-sdk/types"
 
@@ -55,6 +56,10 @@ func probePassthrough(e *fw.Env, l *Lab, ctx sdk.Context, limit uint32, hist any
 		d := l.PickDest(e.R, []string{world.USDC, world.USDN}[e.R.Intn(2)])
 		pt := make([]byte, n)
 		e.R.Read(pt)
+		// the limit counts bytes: one payload in three is text made of multi-byte characters
+		if e.R.Intn(3) == 0 {
+			pt = []byte(strings.Repeat([]string{"é", "€", "💥", "aé€"}[e.R.Intn(4)], n))[:n]
+		}
 		s := &spec.Spec{Route: d.Make(e.R), Passthrough: pt}
 		if e.R.Intn(3) == 0 {
 			s.HasFee, s.Fees = true, []spec.Fee{{Recipient: l.W.K("fee2").String(), IsBPS: true, BPS: 10}}
